@@ -1,12 +1,16 @@
 pub mod common;
 pub mod lap;
 pub mod c02;
+pub mod c07;
+pub mod c08;
 pub mod c11;
+pub mod c13;
+pub mod c14;
 pub mod c16;
 pub mod c17;
 
 use crate::runner::PropDef;
 
 pub fn all() -> Vec<PropDef> {
-    vec![c02::prop(), c11::prop(), c16::prop(), c17::prop()]
+    vec![c02::prop(), c07::prop(), c08::prop(), c11::prop(), c13::prop(), c14::prop(), c16::prop(), c17::prop()]
 }
